@@ -59,3 +59,31 @@ Definition crossing_copies (x : crossing) : bool :=
   | XTransform | XDecode | XCopy | XCount | XNone => true
   | XStoredRef | XUnknown => false
   end.
+
+(* bsonkit.Clone — the copy the ENGINE-level write API (Transaction.Insert /
+   Replace / Update / Bulk) makes of caller-owned documents: documents and
+   arrays are rebuilt with fresh locations, but a primitive.Binary keeps its
+   byte slice ("the content of primitive.Binary values is not cloned",
+   bsonkit/clone.go) — nodes for which `bin` holds are handed on as they are. *)
+Fixpoint clone_share (bin : hv -> bool) (n : loc) (v : hv) : hv * loc :=
+  match v with
+  | HScalar p => (HScalar p, n)
+  | HNode _ p kids =>
+      if bin v then (v, n)
+      else
+        let '(kids', n') :=
+          (fix go (ks : list hv) (m : loc) : list hv * loc :=
+             match ks with
+             | [] => ([], m)
+             | k :: t => let '(k', m1) := clone_share bin m k in
+                         let '(t', m2) := go t m1 in (k' :: t', m2)
+             end) kids (n + 1) in
+        (HNode n p kids', n')
+  end.
+
+(* no node of the value is a binary *)
+Fixpoint no_bin (bin : hv -> bool) (v : hv) : bool :=
+  match v with
+  | HScalar _ => true
+  | HNode _ _ kids => negb (bin v) && forallb (no_bin bin) kids
+  end.
